@@ -66,6 +66,10 @@ pub struct C05 {
     /// 1 = count(), 2 = last(), 3 = for_each()
     #[serde(default)]
     pub terminal: u8,
+    /// the consumer asks the iterator for its size_hint() before every next() / nth() (what
+    /// collect(), extend() and progress bars do); that must never block or change the stream
+    #[serde(default)]
+    pub ask_hint: bool,
     /// CPUs available to the process (what available_parallelism reports)
     #[serde(default = "default_cpus")]
     pub cpus: u8,
@@ -292,7 +296,7 @@ impl Scenario for C05 {
         } else {
             vec![]
         };
-        C05 { run_seed, mode: SMode::draw(&mut rng), n, w, shape, fn_delay, src_delay, stall, hinted, poll_after_end, closed_loop, skips, pool: *rng.pick(&[1u8, 2, 2, 3, 4, 8]), earlier: None, terminal: 0, cpus: 16 }.with_history(&mut rng, tier)
+        C05 { run_seed, mode: SMode::draw(&mut rng), n, w, shape, fn_delay, src_delay, stall, hinted, poll_after_end, closed_loop, skips, pool: *rng.pick(&[1u8, 2, 2, 3, 4, 8]), earlier: None, terminal: 0, ask_hint: false, cpus: 16 }.with_history(&mut rng, tier)
     }
 
     fn run_seed(&self) -> u64 {
@@ -358,6 +362,11 @@ impl Scenario for C05 {
         if self.terminal != 0 {
             let mut c = self.clone();
             c.terminal = 0;
+            v.push(c);
+        }
+        if self.ask_hint {
+            let mut c = self.clone();
+            c.ask_hint = false;
             v.push(c);
         }
         if self.cpus != 16 {
@@ -502,6 +511,9 @@ impl Scenario for C05 {
             let mut pos = 0usize; // position in the stream of the next item
             loop {
                 let s = if sc.skips.is_empty() { 0 } else { sc.skips[k % sc.skips.len()] as usize };
+                if sc.ask_hint {
+                    let _ = it.size_hint();
+                }
                 let got = if s == 0 { it.next() } else { it.nth(s - 1) };
                 let Some(v) = got else { break };
                 pos += s.saturating_sub(1);
@@ -540,6 +552,9 @@ impl Scenario for C05 {
         stats.probe_max("max_decisions_in_one_run", r.decisions);
         stats.probe_max("max_step_cap_use_permille", r.decisions * 1000 / spec_cap);
         stats.param("w", self.w as i64);
+        if self.ask_hint {
+            stats.fault("consumer_asks_for_size_hint_before_every_call");
+        }
         if let Some((c, _, _)) = self.earlier {
             stats.fault("earlier_pipes_in_the_same_process");
             if c >= 64 {
@@ -578,6 +593,7 @@ impl C05 {
         }
         // a pinned thread, a one-CPU container, a big machine
         self.cpus = *rng.pick(&[16u8, 16, 16, 1, 2, 4, 64]);
+        self.ask_hint = rng.chance(0.25);
         self
     }
 
